@@ -19,8 +19,8 @@ ASSUMPTIONS = [
     'log is an uninterpreted function with log(1)=0 and sign facts (barrier_inequality formula compares like with like)',
     'barrier_inequality is judged against its own documented formula (it defines a non-zero term on the feasible side)',
 ]
-BOUNDS = {'quick': dict(iterations='0..2', programs='<=3 ops', nesting=2),
-          'thorough': dict(iterations='0..4', programs='<=4 ops', nesting=3)}
+BOUNDS = {'quick': dict(iterations='0..2', programs='<=3 ops, all types, k,h symbolic; Lagrange types <=6/5 ops with k=3,h=2', nesting=2),
+          'thorough': dict(iterations='0..4', programs='<=4 ops, all types, k,h symbolic; Lagrange types <=7/6 ops with k=3,h=2', nesting=3)}
 BUDGET = {'quick': 300, 'thorough': 1800}
 
 EQ = ('quadratic_equality', 'linear_equality', 'uniform_equality', 'lagrange_equality')
@@ -149,12 +149,16 @@ def real_division(ptype):
 OPS = ('iter', 'iter2', 'clear', 'store', 'call')
 
 
-def program(ptype, prog, nested):
+def program(ptype, prog, nested, concrete_kh=False):
     def h(ctx):
         import mystic.penalty as mp
-        k, hh, fx = ctx.real('k'), ctx.real('h'), ctx.real('fx')
-        ctx.assume(gt(k, 0))
-        ctx.assume(gt(hh, 0))
+        fx = ctx.real('fx')
+        if concrete_kh:
+            k, hh = R(3.0), R(2.0)
+        else:
+            k, hh = ctx.real('k'), ctx.real('h')
+            ctx.assume(gt(k, 0))
+            ctx.assume(gt(hh, 0))
         vals = []
 
         def cond(x):
@@ -284,7 +288,7 @@ def instances(tier, seed):
     L = 3 if tier == 'quick' else 4
     progs = []
     for l in range(1, L + 1):
-        for pr in itertools.product(('iter', 'iter2', 'clear', 'store'), repeat=l - 1):
+        for pr in itertools.product(('iter', 'iter2', 'clear', 'store', 'call'), repeat=l - 1):
             progs.append(tuple(pr) + ('call',))
     if tier == 'thorough':
         progs += [('iter', 'call', 'store', 'iter', 'call'), ('store', 'iter', 'call', 'clear', 'call'),
@@ -293,6 +297,18 @@ def instances(tier, seed):
         for pr in progs:
             for nested in ((False, True) if (tier == 'thorough' or len(pr) <= 2 or p.startswith('lagrange')) else (False,)):
                 out.append(Instance('program/%s/%s%s' % (p, '-'.join(pr), '/nested' if nested else ''), program(p, pr, nested)))
+    # the Lagrange types carry a stored multiplier history: deeper programs (calls also in the middle)
+    seen = set(progs)
+    for p in ('lagrange_equality', 'lagrange_inequality'):
+        LL = (6 if p == 'lagrange_equality' else 5) if tier == 'quick' else (7 if p == 'lagrange_equality' else 6)
+        for l in range(L + 1, LL + 1):
+            for pr in itertools.product(('iter', 'store', 'clear', 'call'), repeat=l - 1):
+                pr = tuple(pr) + ('call',)
+                if pr in seen or 'store' not in pr or 'iter' not in pr:
+                    continue
+                if any(pr[i] == pr[i + 1] == 'clear' for i in range(len(pr) - 1)):
+                    continue
+                out.append(Instance('program/%s/%s/k=3,h=2' % (p, '-'.join(pr)), program(p, pr, False, True)))
     plain = [p for p in EQ + INEQ if not p.startswith('lagrange') and p != 'barrier_inequality']
     pairs = list(itertools.product(plain, repeat=2))
     if tier == 'quick':
